@@ -217,7 +217,10 @@ func (w *World) checkCommitted(h int64, res *BlockResult, block *tmtypes.Block, 
 				w.violate("diff.balance", f.propsFor("balance", &addr), h, "account %s: node %s, model %s (delta %s)", addr.Hex(), bal, mb, new(big.Int).Sub(bal, mb))
 			}
 			if mn := wAt.GetNonce(common.Address(addr)); a.Nonce != mn {
-				w.violate("diff.nonce", f.propsFor("nonce", &addr), h, "account %s: node nonce %d, model %d", addr.Hex(), a.Nonce, mn)
+				v := w.violate("diff.nonce", f.propsFor("nonce", &addr), h, "account %s: node nonce %d, model %d", addr.Hex(), a.Nonce, mn)
+				if m.Destroyed[addr] && mn == 0 {
+					v.Shape = "selfdestruct-native-nonce"
+				}
 			}
 			mm := snap.Meta[addr]
 			if a.Name != mm.Name || a.DocURL != mm.Doc {
@@ -311,6 +314,9 @@ func (w *World) checkCommitted(h int64, res *BlockResult, block *tmtypes.Block, 
 		lhs := new(big.Int).Set(sumBal)
 		lhs.Add(lhs, powerToAmt(sumBonded))
 		lhs.Add(lhs, powerToAmt(sumUnbond))
+		if w.Tr.Cfg.EVM && len(m.Deployed) > 0 {
+			w.updateEvmBurn(h, snap)
+		}
 		rhs := new(big.Int).Set(m.GenesisTotal)
 		rhs.Add(rhs, m.Withdrawn)
 		rhs.Sub(rhs, m.SlashBurn)
@@ -737,6 +743,7 @@ func fmtSet(m map[Addr]int64) string {
 type evmAcct struct {
 	Root     string
 	CodeHash string
+	Balance  string
 }
 
 type evmCollector struct{ m map[string]evmAcct }
@@ -747,7 +754,7 @@ func (c *evmCollector) OnAccount(addr common.Address, a state.DumpAccount) {
 	if len(a.SecureKey) == 0 {
 		key = hex.EncodeToString(ethcrypto.Keccak256(addr[:]))
 	}
-	c.m[key] = evmAcct{Root: hex.EncodeToString(a.Root), CodeHash: hex.EncodeToString(a.CodeHash)}
+	c.m[key] = evmAcct{Root: hex.EncodeToString(a.Root), CodeHash: hex.EncodeToString(a.CodeHash), Balance: a.Balance}
 }
 
 var (
@@ -794,8 +801,38 @@ func (w *World) checkEvmState(h int64, f *blockFacts) {
 		if trivial(a, oka) && trivial(b, okb) {
 			continue
 		}
+		a.Balance, b.Balance = "", ""
 		if a != b {
 			w.violate("diff.evm", f.propsFor("evm", nil), h, "contract %s: node code/storage %s/%s, reference %s/%s", names[k], short(a.CodeHash), short(a.Root), short(b.CodeHash), short(b.Root))
 		}
+	}
+}
+
+// updateEvmBurn: value destroyed by EVM definition (self-destruct into itself), as computed by the
+// reference EVM: the residual of the model's own totals.
+func (w *World) updateEvmBurn(h int64, snap *Snapshot) {
+	m := w.M
+	total := new(big.Int)
+	for _, a := range dumpEvm(m.StateAt(h)) {
+		if b, ok := new(big.Int).SetString(a.Balance, 10); ok {
+			total.Add(total, b)
+		}
+	}
+	for _, d := range snap.Delegs {
+		total.Add(total, powerToAmt(d.Total()))
+	}
+	for _, s := range snap.Frozen {
+		total.Add(total, powerToAmt(s.Power))
+	}
+	exp := new(big.Int).Add(m.GenesisTotal, m.Withdrawn)
+	exp.Sub(exp, m.SlashBurn)
+	burn := new(big.Int).Sub(exp, total)
+	if burn.Cmp(m.EvmBurn) != 0 {
+		if burn.Cmp(m.EvmBurn) < 0 || len(m.Destroyed) == 0 {
+			w.violate("harness.model-total", []string{"HARNESS"}, h, "the reference model's own total changed by %s without a self-destruct", new(big.Int).Sub(m.EvmBurn, burn))
+			return
+		}
+		w.Probes.Hit("evm.selfdestruct-burn")
+		m.EvmBurn = burn
 	}
 }
